@@ -232,6 +232,25 @@ M = [
  ('C20', 'unknown descriptors skipped silently', T+'group_data.py',
   "                i = lib.uq_contents['descriptors'].index(group)\n                xp[i] = count",
   "                if group not in lib.uq_contents['descriptors']:\n                    continue\n                i = lib.uq_contents['descriptors'].index(group)\n                xp[i] = count"),
+ # --- the run-configuration axes (interpreter flags, warnings, schedule) ---
+ ('C06', 'range check behind `if __debug__` (gone under -O)', T+'base.py',
+  "        if np.any(T < self.range[0]) or np.any(T > self.range[1]):\n            raise OutsideCorrelationError(",
+  "        if __debug__ and (np.any(T < self.range[0]) or np.any(T > self.range[1])):\n            raise OutsideCorrelationError("),
+ ('C08', 'ring-count verdict as an assert (gone under -O)', RW+'MolQuery.py',
+  "        if self.negate and self.NringCN(n):\n            raise MolQueryError('AtomNRing: False.')\n        elif not self.negate and not self.NringCN(n):\n            raise MolQueryError('AtomNRing: False.')",
+  "        try:\n            assert self.NringCN(n) != self.negate\n        except AssertionError:\n            raise MolQueryError('AtomNRing: False.')"),
+ ('C11', 'addition through a module-level scratch slot (threads)', U+'qty.py',
+  "        return self._build(self_value + other_value, self_units)\n\n    def __radd__",
+  "        global _scratch\n        _scratch = self_value\n        import time; time.sleep(0)\n        return self._build(_scratch + other_value, self_units)\n\n    def __radd__"),
+ ('C18', 'yaml_format collects its lines on the class (threads)', T+'incomplete.py',
+  "        lines = []\n        T_ref = with_units(self.T_ref, 'K')",
+  "        lines = type(self)._lines = []\n        import time; time.sleep(0)\n        lines = type(self)._lines\n        T_ref = with_units(self.T_ref, 'K')"),
+ ('C01', 'estimate sums through a shared accumulator (threads)', T+'group_data.py',
+  "        return sum((count*correlation.get_HoRT(T)\n                    for (correlation, count) in self.correlations))",
+  "        acc = type(self)._acc = [0.0]\n        for (correlation, count) in self.correlations:\n            type(self)._acc[0] += count*correlation.get_HoRT(T)\n        return acc[0]"),
+ ('C06', 'deprecated helper raising under -W error, swallowed', T+'base.py',
+  "        if self.range is None:\n            return\n        if np.any(T < self.range[0])",
+  "        if self.range is None:\n            return\n        try:\n            import warnings\n            warnings.warn('check_range is deprecated', DeprecationWarning)\n        except Warning:\n            return\n        if np.any(T < self.range[0])"),
 ]
 EXTRA_PRELUDE = {('C15', 'descriptor cache keyed by SMILES only'):
                  (G+'Library.py', "class GroupLibrary(Mapping):", "_DCACHE = {}\n\n\nclass GroupLibrary(Mapping):")}
